@@ -10,7 +10,7 @@ import (
 )
 
 func TestMain(m *testing.M) {
-	core.Main(m, "C10", "cases = (limit setting L from a boundary table or random 16..70000, or a non-positive setting = default; declared body size s enumerated over {0,1,L-1,L,L+1,L+2,2L-1,2L,2L+1,3L+7,10L} or drawn up to 40L; message type Q P B D E C H S d c f X or unknown; position first / between queries / inside an extended batch / during COPY / in place of the password / as startup packet; segmentation of the body); s <= L: differential against a server with limit 1 MiB (transcript and callbacks identical); s > L: exactly one ERROR/54000 ErrorResponse, no callback sees the body, Sync and the next query answered normally, connection stays open (startup/auth: closed instead); huge: length words 0..3, 2^31-1, 2^31, 2^32-1 with a few bytes delivered: bounded allocation, no callback, handling ends with the input; non-trivial = |s-L| <= 2, or s > L, or a sub-minimum/huge length; distinct = distinct canonical JSON")
+	core.Main(m, "C10", "cases = (limit setting L from a boundary table or random 16..70000, or a non-positive setting = default; declared body size s enumerated over {0,1,L-1,L,L+1,L+2,2L-1,2L,2L+1,3L+7,10L} or drawn up to 40L; message type Q P B D E C H S d c f X or unknown; position first / between queries / inside an extended batch / during COPY / in place of the password / as startup packet; segmentation of the body); s <= L: differential against a server with limit 1 MiB (transcript and callbacks identical); s > L: exactly one ERROR/54000 ErrorResponse, no callback sees the body, Sync and the next query answered normally, connection stays open (startup/auth: closed instead); state: a session prepares a statement and binds a portal with a parameter, carries 0..20 KiB of ordinary traffic (bodies up to L, 12 limits 64..65536), receives 1..5 oversized messages in a row and then executes / describes / re-binds what it kept, against the reference model (the message after the oversized one is processed normally also when it depends on earlier messages); huge: length words 0..3, 2^31-1, 2^31, 2^32-1 with a few bytes delivered: bounded allocation, no callback, handling ends with the input; non-trivial = |s-L| <= 2, or s > L, or a sub-minimum/huge length; distinct = distinct canonical JSON")
 }
 
 var limits = []int{16, 17, 31, 64, 100, 255, 256, 1000, 4095, 4096, 4097, 65536}
@@ -52,6 +52,50 @@ func genCase(t *rapid.T) Case {
 		c.Segs = gen.Segments().Draw(t, "segs")
 	}
 	return c
+}
+
+func genStateful(t *rapid.T) Stateful {
+	c := Stateful{Limit: rapid.SampledFrom([]int{64, 100, 512, 600, 1024, 2048, 4000, 4095, 4096, 4097, 8192, 65536}).Draw(t, "limit")}
+	size := func(label string) int {
+		// body sizes relative to the limit and to 4 KiB
+		switch rapid.IntRange(0, 3).Draw(t, label+"-kind") {
+		case 0:
+			return rapid.IntRange(1, 40).Draw(t, label)
+		case 1:
+			return c.Limit - 1 - rapid.IntRange(0, 8).Draw(t, label)
+		}
+		return rapid.IntRange(1, c.Limit).Draw(t, label)
+	}
+	// up to ~3 blocks of 4 KiB of ordinary traffic before and after the state is built
+	budget := rapid.IntRange(0, 3*4096).Draw(t, "pre-bytes")
+	for budget > 0 && len(c.Pre) < 200 {
+		n := size("pre")
+		c.Pre = append(c.Pre, n)
+		budget -= n + 5
+	}
+	budget = rapid.IntRange(0, 2*4096).Draw(t, "mid-bytes")
+	for budget > 0 && len(c.Mid) < 200 {
+		n := size("mid")
+		c.Mid = append(c.Mid, n)
+		budget -= n + 5
+	}
+	c.ParamLen = rapid.SampledFrom([]int{0, 1, 10, 100, 1500, 4000}).Draw(t, "param-len")
+	c.OverType = rapid.SampledFrom([]byte{'Q', 'P', 'B', 'E', 'd', 'Y'}).Draw(t, "over-type")
+	c.OverBy = rapid.SampledFrom([]int{1, 2, 100, 4096, 5000, c.Limit, 3*c.Limit + 7}).Draw(t, "over-by")
+	c.Overs = rapid.SampledFrom([]int{1, 1, 1, 2, 5}).Draw(t, "overs")
+	c.Use = rapid.SampledFrom([]string{"execute", "execute-twice", "describe-portal", "describe-stmt", "bind-again"}).Draw(t, "use")
+	if rapid.IntRange(0, 4).Draw(t, "segmented") == 0 {
+		c.Segs = gen.Segments().Draw(t, "segs")
+	}
+	return c
+}
+
+func TestStateful(t *testing.T) {
+	core.RunProp(t, "state", core.Scale(400), genStateful, RunStateful)
+}
+
+func TestReplayStateful(t *testing.T) {
+	core.Replay(t, map[string]func(Stateful) core.Result{"state": RunStateful})
 }
 
 func TestProp(t *testing.T) {
